@@ -8,6 +8,18 @@
 //!   → `Display` → `parse` → compared FIELD-WISE with the generated value; print→parse→print fixpoint;
 //!   independent line scanner for the placement of media-level lines; and the reference rendering
 //!   (`refmodel::sdp`) of the same value must parse to the same value.
+//!   Generated (gen/sdp.rs): every field of the public structs over its grammar. Two dimensions are
+//!   generated on purpose because a text-level parse→print→parse check cannot see them (the first
+//!   parse already normalises): (1) white-space-delimited tokens (origin user/id/version, candidate
+//!   transport/type/extension pairs) and free text (s=, attribute values, fmtp) containing code
+//!   points >= U+0080 that Unicode — but not ASCII/SDP — calls white space, or that are invisible,
+//!   at the start, inside and at the end; (2) every token with a catch-all variant (`Other` proto,
+//!   `Ext` suite, `Ext` session parameter, unknown attribute name, candidate extension key) as a
+//!   NEAR MISS of a well-known token: other letter case, proper prefix/suffix, extended.
+//!   Oracle: equality with the generated value, nothing else. Not asserted: what a token that is
+//!   spelled exactly like a well-known one but held in the catch-all variant parses to; whether
+//!   case-variants of media types (no catch-all variant exists) are accepted; control characters
+//!   inside tokens (outside RFC 8866 `non-ws-string`).
 //! * `whole_token` — metamorphic: a token character appended to the media-type / protocol /
 //!   crypto-suite token of a valid description yields an error or the `Other`/`Ext` variant with
 //!   the whole token, never the well-known variant.
@@ -698,6 +710,43 @@ fn classify_value(c: &SdpCase, out: &mut CaseOut) -> bool {
     if !c.attributes.is_empty() {
         out.class("session:unknown-attr");
     }
+    let has_uws = |s: &str| s.chars().any(is_unicode_only_ws);
+    let has_exotic = |s: &str| s.chars().any(|ch| EXOTIC_TOKEN_CHARS.contains(&ch));
+    let edge_uws = |s: &str| s.chars().next().map_or(false, is_unicode_only_ws) || s.chars().last().map_or(false, is_unicode_only_ws);
+    for t in [&c.origin.username, &c.origin.session_id, &c.origin.session_version] {
+        if has_uws(t) {
+            out.class("origin:token-with-unicode-ws");
+            interesting = true;
+        } else if has_exotic(t) {
+            out.class("origin:token-with-invisible-char");
+        }
+    }
+    if edge_uws(&c.name) {
+        out.class("text:unicode-ws-at-edge");
+    }
+    let attr_classes = |a: &AttrC, out: &mut CaseOut| -> bool {
+        if a.value.as_deref().map_or(false, edge_uws) {
+            out.class("text:unicode-ws-at-edge");
+        }
+        match near_miss_kind(&a.name, &KNOWN_ATTR_NAMES) {
+            Some("case-variant") => {
+                out.class("attr:name-case-variant-of-known");
+                true
+            }
+            Some("part-of-wellknown") => {
+                out.class("attr:name-part-of-known");
+                true
+            }
+            Some(_) => {
+                out.class("attr:name-extending-known");
+                false
+            }
+            None => false,
+        }
+    };
+    for a in &c.attributes {
+        interesting |= attr_classes(a, out);
+    }
     for b in &c.bandwidth {
         e32(b.bandwidth);
     }
@@ -710,14 +759,21 @@ fn classify_value(c: &SdpCase, out: &mut CaseOut) -> bool {
             ProtoC::RtpAvp => out.class("proto:RTP/AVP"),
             ProtoC::RtpSavp => out.class("proto:RTP/SAVP"),
             ProtoC::RtpSavpf => out.class("proto:RTP/SAVPF"),
-            ProtoC::Other(s) => {
-                if PROTO_NAMES.iter().any(|k| s.starts_with(k)) {
+            ProtoC::Other(s) => match near_miss_kind(s, &PROTO_NAMES) {
+                Some("case-variant") => {
+                    out.class("proto:other-case-variant-of-wellknown");
+                    interesting = true;
+                }
+                Some("part-of-wellknown") => {
+                    out.class("proto:other-part-of-wellknown");
+                    interesting = true;
+                }
+                Some(_) => {
                     out.class("proto:other-extending-wellknown");
                     interesting = true;
-                } else {
-                    out.class("proto:other");
                 }
-            }
+                None => out.class("proto:other"),
+            },
         }
         if m.port == 0 || m.port == u16::MAX {
             edge.set(true);
@@ -764,6 +820,18 @@ fn classify_value(c: &SdpCase, out: &mut CaseOut) -> bool {
             if !cand.unknown.is_empty() {
                 out.class("candidate:extension-pairs");
             }
+            let toks = [&cand.transport, &cand.typ].into_iter().chain(cand.unknown.iter().flat_map(|(k, v)| [k, v]));
+            if toks.clone().any(|t| has_uws(t)) {
+                out.class("candidate:token-with-unicode-ws");
+                interesting = true;
+            }
+            for (k, _) in &cand.unknown {
+                match near_miss_kind(k, &CAND_KEYWORDS) {
+                    Some("case-variant") => out.class("candidate:ext-key-case-variant-of-keyword"),
+                    Some("part-of-wellknown") => out.class("candidate:ext-key-part-of-keyword"),
+                    _ => {}
+                }
+            }
             match cand.address {
                 UntaggedC::V4(_) => out.class("candidate:ip4"),
                 UntaggedC::V6(_) => out.class("candidate:ip6"),
@@ -783,13 +851,12 @@ fn classify_value(c: &SdpCase, out: &mut CaseOut) -> bool {
         for cr in &m.crypto {
             match &cr.suite {
                 SuiteC::Known(_) => out.class("suite:well-known"),
-                SuiteC::Ext(s) => {
-                    if SUITE_NAMES.iter().any(|k| s.starts_with(k)) {
-                        out.class("suite:ext-extending-wellknown");
-                    } else {
-                        out.class("suite:ext");
-                    }
-                }
+                SuiteC::Ext(s) => out.class(match near_miss_kind(s, &SUITE_NAMES) {
+                    Some("case-variant") => "suite:ext-case-variant-of-wellknown",
+                    Some("part-of-wellknown") => "suite:ext-part-of-wellknown",
+                    Some(_) => "suite:ext-extending-wellknown",
+                    None => "suite:ext",
+                }),
             }
             e32(cr.tag);
             if cr.keys.len() > 1 {
@@ -820,10 +887,29 @@ fn classify_value(c: &SdpCase, out: &mut CaseOut) -> bool {
                     ParamC::Wsh(_) => "param:WSH",
                     ParamC::Ext(_) => "param:ext",
                 });
+                if let ParamC::Ext(s) = p {
+                    let name_end = s.find('=').map_or(s.len(), |i| i + 1);
+                    let keyed = ["KDR=", "FEC_ORDER=", "FEC_KEY=", "WSH="];
+                    if near_miss_kind(s, &PARAM_FLAGS) == Some("case-variant")
+                        || near_miss_kind(&s[..name_end], &keyed) == Some("case-variant")
+                    {
+                        out.class("param:ext-case-variant-of-wellknown");
+                    } else if near_miss_kind(s, &PARAM_FLAGS) == Some("part-of-wellknown") {
+                        out.class("param:ext-part-of-wellknown");
+                    }
+                }
             }
         }
         if !m.attributes.is_empty() {
             out.class("media:unknown-attr");
+        }
+        for a in &m.attributes {
+            interesting |= attr_classes(a, out);
+        }
+        for f in &m.fmtps {
+            if edge_uws(&f.params) {
+                out.class("fmtp:unicode-ws-at-edge");
+            }
         }
     }
     if edge.get() {
@@ -1216,19 +1302,24 @@ pub fn property() -> Property {
         fuzz: vec![FuzzStage { target: "sdp", runs: 2_000_000, max_len: 4096, seed_corpus: seed_corpus_sdp }],
         id: "C19",
         rule: "roundtrip: a generated SessionDescription value is non-trivial when it has >=1 media section and at least one of: >=2 \
-               different sections, a candidate / crypto line / ice-options, an Other/Ext token extending a well-known one, a numeric \
-               field at a range edge; distinct = hash of the whole value. parse_text: non-trivial when at least one `<o|s|c|t|b|m|a>=` \
+               different sections, a candidate / crypto line / ice-options, an Other proto / unknown attribute name that is a near miss \
+               of a well-known token (extends it, is a part of it, differs in letter case only), an origin / candidate token \
+               holding a non-ASCII white-space code point, a numeric field at a range edge; distinct = hash of the whole value. parse_text: non-trivial when at least one `<o|s|c|t|b|m|a>=` \
                line reaches a field parser; distinct = hash of the text. whole_token: every case (site, well-known token, suffix, \
                section, line) is non-trivial.",
         assumptions: vec![
             "values stay inside each field's documented grammar (see gen/sdp.rs module doc): no empty key list / FecKey([]), no fmtp \
-             params with leading blank, unknown attributes / Ext params / Other tokens never named exactly like a known one, IP4 \
-             connection `num` only with `ttl`, FQDNs are not IP literals",
+             params with leading ASCII blank, unknown attributes / Ext params / Other tokens never spelled exactly (byte for byte) \
+             like a known one — a different letter case IS a different token —, IP4 connection `num` only with `ttl`, FQDNs \
+             are not IP literals",
+            "SDP fields are separated by ASCII blanks only (RFC 8866 SP); code points >= U+0080, including the ones Unicode \
+             classifies as white space, are content of non-ws-string tokens and of text fields",
             "the reference rendering uses RFC 8866/8839/4568 syntax with single blanks, the same syntax ezk's own unit tests use",
         ],
         explanation: "Sampled, not exhaustive: 16 independent proptest shards per sub-check. Values are drawn over every field of the \
                       public SessionDescription/MediaDescription structs (0..4 media sections, 0..n of each attribute, integers over \
-                      their full range with weight on 0/MAX/powers of two); texts are arbitrary UTF-8, line-shaped ASCII, \
+                      their full range with weight on 0/MAX/powers of two; tokens with non-ASCII white space / invisible code points; \
+                      catch-all tokens as case variants, prefixes, suffixes and extensions of every well-known token); texts are arbitrary UTF-8, line-shaped ASCII, \
                       grammar-derived lines with numbers up to 41 digits and 2^n with n<=99, and 1..4 char/line/number mutations of \
                       valid reference SDP.",
         subs: vec![
